@@ -24,7 +24,7 @@ def run(chk):
         chk.violation(v["sig"], v["desc"], dict(kind="c11", detail=v))
     # client level: the consumers of a decoded response (scanner.Next, the hbase:meta lookup, Increment, CheckAndPut, SendBatch)
     wd2 = vlib.scratch("verif-c11c-")
-    t2 = vlib.go_test("", "^TestVerifC11Client$", env=dict(VERIF_OUT=wd2, VERIF_SEED=str(chk.seed)), timeout=1700, race=False)
+    t2 = vlib.go_test("", "^TestVerifC11Client$", env=dict(VERIF_IN=wd, VERIF_OUT=wd2, VERIF_SEED=str(chk.seed)), timeout=1700, race=False)
     resf2 = os.path.join(wd2, "c11c_result.json")
     if not os.path.exists(resf2) or t2["rc"] != 0:
         v = vlib.classify_panic(t2["out"])
